@@ -255,7 +255,20 @@ let verdict case impl =
        if check_prop && prop_failures () <> [] then "error property-predicate-rejects-accepted-trace" else
        if !forced then "ok" else
          (match s_accept d st (nat_of_int ns) (sinit init nodes) O tr with
-          | (_, V_ok _) -> "ok"
+          | (_, V_ok _) ->
+            (* model = implementation = specification nodes.  The model follows the code AS IT IS;
+               the property's own bookkeeping (columns most recently announced for the statement)
+               is evaluated on the implementation's trace: known finding F17 *)
+            let an0 = { an_latest = (fun i -> (init i).m_cols); an_reprep = (fun _ -> false) } in
+            (match stale_check st (nat_of_int ns) an0 O tr with
+             | [] -> "ok"
+             | hits ->
+               let idx l = String.concat "," (List.map (fun (i, _) -> string_of_int (int_of_nat i)) l) in
+               let outside = List.filter (fun (_, c) -> not c) hits in
+               if outside <> [] then
+                 Printf.sprintf "viol rows-decoded-with-columns-other-than-most-recently-announced ops=%s" (idx outside)
+               else
+                 Printf.sprintf "viol class=stale-cached-metadata-without-ext ops=%s (no extension, cached metadata requested, re-preparation announced other columns)" (idx hits))
           | (i, v) -> Printf.sprintf "error spec-system op=%d %s" (int_of_nat i) (show_v v))
      | (i, v) ->
        (match prop_failures () with
